@@ -17,7 +17,9 @@ cargo test --workspace --no-fail-fast --offline 2>&1 | grep -E "^test result|FAI
 suite=$(grep -E "^test result" "$log" | awk '{p+=$4; f+=$6} END {print p" passed, "f" failed"}')
 echo "suite with change: $suite" | tee -a "$log"
 echo "== demo with change" >> "$log"
-arg="$wt/target/debug/rsjsonnet"; grep -qiE '^\s*#.*\$1.*worktree|worktree.*\$1' "$dst/demo.sh" && ! grep -qiE 'binary' "$dst/demo.sh" && arg="$wt"
+arg="$wt/target/debug/rsjsonnet"
+# the demonstration's header says what $1 is: a built binary (default) or the worktree
+head -12 "$dst/demo.sh" | grep -qiE 'worktree.*\((NOT|not) (the|a) binary|not a binary\)|<path of the rsjsonnet worktree>|\$1 = path of the rsjsonnet WORKTREE' && arg="$wt"
 bash "$dst/demo.sh" "$arg" >> "$log" 2>&1; d1=$?
 # a demonstration that wants the worktree (not the binary) as $1 answers 2 (set-up problem) to a binary path: retry
 if [ $d1 -ge 2 ] && [ "$arg" != "$wt" ] && head -30 "$dst/demo.sh" | grep -qi worktree; then arg="$wt"; bash "$dst/demo.sh" "$arg" >> "$log" 2>&1; d1=$?; fi
